@@ -184,6 +184,52 @@ fn dim_true(y: i16, m: i8) -> i8 {
     Date::new(y, m, 1).map(|d| d.days_in_month()).unwrap_or(31).max(28)
 }
 
+/// Date::with(): any combination of year (plain / CE / BCE), month and day (of month / of year / of year
+/// without leap days). Not part of C01's wording: scope "beyond" (a divergence is reported, never a violation).
+fn dwith_event(rng: &mut Rng) -> Value {
+    let o = Date::new(rng.range(-9999, 9999) as i16, rng.range(1, 12) as i8, rng.range(1, 28) as i8).unwrap();
+    let o = if rng.chance(1, 4) { o.last_of_month() } else { o };
+    let ykind = rng.next() % 4;
+    let yv: i16 = match rng.next() % 4 {
+        0 => *rng.pick(&[-10000i16, -9999, -1, 0, 1, 9999, 10000]),
+        1 => rng.range(-10001, 10001) as i16,
+        _ => rng.range(1, 2400) as i16,
+    };
+    let mset = rng.chance(1, 2);
+    let mv: i8 = if rng.chance(1, 6) { *rng.pick(&[0i8, 13, -1, 127]) } else { rng.range(1, 12) as i8 };
+    let dkind = rng.next() % 4;
+    let dv: i16 = match dkind {
+        1 => if rng.chance(1, 3) { *rng.pick(&[0i16, 28, 29, 30, 31, 32, -1]) } else { rng.range(1, 31) as i16 },
+        _ => { let r = rng.range(1, 366) as i16; *rng.pick(&[0i16, 1, 59, 60, 61, 365, 366, 367, r]) }
+    };
+    let r = guard(|| {
+        let mut w = o.with();
+        w = match ykind {
+            1 => w.year(yv),
+            2 => w.era_year(yv, jiff::civil::Era::CE),
+            3 => w.era_year(yv, jiff::civil::Era::BCE),
+            _ => w,
+        };
+        if mset {
+            w = w.month(mv);
+        }
+        w = match dkind {
+            1 => w.day(dv as i8),
+            2 => w.day_of_year(dv),
+            3 => w.day_of_year_no_leap(dv),
+            _ => w,
+        };
+        w.build()
+    });
+    let (st, res) = match r {
+        Ok(Ok(d)) => ("ok", json!([d.year(), d.month(), d.day()])),
+        Ok(Err(_)) => ("err", json!([])),
+        Err(_) => ("panic", json!([])),
+    };
+    json!({"op":"dwith","cls":"builder","scope":"beyond","o":[o.year(), o.month(), o.day()],"ykind":ykind,"yv":yv,
+           "mset": if mset {1} else {0},"mv":mv,"dkind":dkind,"dv": if dkind == 1 { dv as i8 as i16 } else { dv },"st":st,"res":res})
+}
+
 pub fn run(a: &Args) {
     let mut out = Out::new(&a.out, "c01", 100_000);
     let mut rng = Rng::new(a.seed, 1);
@@ -346,6 +392,9 @@ pub fn run(a: &Args) {
                 out.emit(iso_event(iy, w, wd, cls));
             }
         }
+    }
+    for _ in 0..(if quick { 4000 } else { 100_000 }) {
+        out.emit(dwith_event(&mut rng));
     }
     out.finish();
 }
